@@ -792,6 +792,6 @@ FIELD_TYPES = {
     "CompiledFunction.locals": "list", "CompiledFunction.params": "list",
     "CompiledFunction.free_vars": "list", "CompiledFunction.cell_vars": "list",
     "Compiler.bytecode": "list", "Compiler.source_map": "dict", "Compiler.constants": "list", "Compiler.locals": "list",
-    "JSTypedArray._data": "list", "JSFunction.params": "list", "JSFunction._properties": "dict",
+    "JSTypedArray._data": "list", "JSFunction.params": "list", "JSFunction._properties": "dict", "JSObject._key_order": "dict?",
     "ForInIterator.keys": "list", "ForOfIterator.values": "list",
 }
